@@ -1,6 +1,9 @@
 use crate::ctx::{Ctx, RunCfg};
 
 pub mod c01;
+pub mod c04;
+pub mod c06;
+pub mod c07;
 
 pub struct Spec {
     pub id: &'static str,
@@ -28,6 +31,30 @@ pub fn all() -> Vec<Spec> {
             run: c01::run,
             level: "exploration",
             rule: "cases drawn from (seed, monitor, index): encoding x role x codec x buffer_size x yield_threshold x message sizes (boundary set) x source readiness script; each encoded through the real EncodeBody, judged by the reference framing parser + independent decompressor, re-encoded under 3 other schedules (byte equality), then re-cut (7 cut styles, or every single/double cut in monitor `allcuts`) and decoded through the real Streaming. Fingerprint = enc|role|codec|buffer class|yield class|#msgs class|readiness class|what the cuts hit|#DATA frames class. Non-trivial = >=2 messages and at least one cut strictly inside a prefix or payload.",
+            exhaustive: false,
+            assumptions: COMMON_ASSUMPTIONS,
+        },
+        Spec {
+            id: "C04",
+            run: c04::run,
+            level: "exploration",
+            rule: "roundtrip: Status(code in all 17, Unicode/control/'%'/empty message, details 0..200 bytes (all lengths mod 3), metadata with repeats and -bin values) -> add_header / into_http -> every value checked against RFC 9110 field-value rules, the gRPC Percent-Encoded grammar and unpadded RFC 4648 with the harness's own codecs -> (details optionally re-padded as a peer may) -> from_header_map -> equality. total: header maps from a grammar of corruptions (out-of-range / non-numeric codes, lone '%', '%zz', invalid UTF-8, obs-text, invalid / padded / dubious base64), under catch_unwind; oracle: no panic, unknown codes -> UNKNOWN, undecodable field -> non-OK status, decodable fields equal independent decoding. httptable: every HTTP status 100..=599 through Streaming::new_response (exhaustive), with and without grpc-status trailers. h2table: HTTP/2 error codes 0..=13 + unknown through From<h2::Error>, from_error, From<Status> for h2::Error (exhaustive). Fingerprint = leg|code|message class|details length class|metadata size / corruption classes. Non-trivial = non-empty message or details (roundtrip), a corrupted field (total), any non-200 status / any reason (tables).",
+            exhaustive: false,
+            assumptions: COMMON_ASSUMPTIONS,
+        },
+        Spec {
+            id: "C06",
+            run: c06::run,
+            level: "exploration",
+            rule: "declimit: streams of 1..5 frames (identity or compressed, flag 0/1) with the limit placed at target length -1/0/+1 (or from {0,1,4,5,100,4096,65536}, or the 4 MiB default with a 4 MiB-1/4 MiB/4 MiB+1 message), any chunking; oracle: exact accept/refuse by wire length, OUT_OF_RANGE, earlier messages delivered first, refusal no later than the DATA chunk that completes the 5-byte prefix, largest single allocation (counting allocator) under a bound independent of the declared length. hugeprefix: bare prefixes declaring 2^16..2^32-1 bytes. enclimit: EncodeBody (both roles, all encodings, all readiness classes) with the limit at the produced wire length -1/0/+1 learned from an unlimited run; oracle: bytes before the status equal the unlimited run's bytes of the earlier messages, then exactly one trailers (server, grpc-status 11) / one Err (client) and nothing after. enc4g (thorough): one 4 GiB+1 item => RESOURCE_EXHAUSTED. Fingerprint = side|enc|role/dir|n|position of oversized|relation to limit|cut style or readiness. Non-trivial = a message at or over the limit.",
+            exhaustive: false,
+            assumptions: COMMON_ASSUMPTIONS,
+        },
+        Spec {
+            id: "C07",
+            run: c07::run,
+            level: "exploration",
+            rule: "a valid stream (0..5 messages, any encoding, raw or prost codec) is mutated by one of 15 classes (bitflip, illegal flag, flag 1 without encoding, length +/- d, truncation, splice, duplicated prefix, garbage compressed payload, undecodable protobuf, raw random, huge declared length, over-limit, injected body error, or left valid), re-cut by 7 cut styles, optionally followed by OK / error / garbage trailers, and decoded by the real Streaming which is polled 8 more times after its first End/Err; monitor `truncate-all` truncates small streams at every byte. Oracle = reference framing parser + lenient independent decompressor + small protobuf parser deciding prefix-validity, must-fail / must-not-fail and finality. Fingerprint = mutation|enc|codec|direction|cut style|trailers kind|injected|#yielded|terminal. Non-trivial = any case whose input is not the unmutated valid stream.",
             exhaustive: false,
             assumptions: COMMON_ASSUMPTIONS,
         },
